@@ -38,6 +38,9 @@ pub enum Op {
     FromSoes(Vec<crate::sopx::EB>),
     // unary a -> dst
     Clone,
+    /// a fresh table (constant one of `n2` variables for Lut, of the pool size for LutN) that
+    /// receives `clone_from(&a)`
+    CloneFrom(usize),
     Not(usize),
     Flip(usize, bool),
     Swap(usize, usize, bool),
@@ -220,6 +223,11 @@ fn exec_inner(fam: Fam, n: usize, slots: &[T], st: &Step) -> (Outcome, Option<T>
             }
         }
         Op::Clone => tab(a.dup()),
+        Op::CloneFrom(n2) => {
+            let mut t = if fam == Fam::Dyn { f.one(*n2) } else { f.one(n) };
+            t.clone_from_(a);
+            tab(t)
+        }
         Op::Not(form) => tab(a.not_form(*form)),
         Op::Flip(i, inplace) => {
             if *inplace {
@@ -424,6 +432,7 @@ pub fn arb_op(n: usize, fam: Fam, o: OpOptions) -> BoxedStrategy<Op> {
         (3, arb_tt(n).prop_map(|t| Op::FromBlocks(t.w)).boxed()),
         (1, (0..(if n >= 3 { 256usize } else { 1usize << size })).prop_map(Op::AllFunctionsNth).boxed()),
         (1, Just(Op::Clone).boxed()),
+        (2, (0usize..=12).prop_map(Op::CloneFrom).boxed()),
         (4, (0usize..4).prop_map(Op::Not).boxed()),
         (3, (0..size).prop_map(Op::SetBit).boxed()),
         (3, (0..size).prop_map(Op::UnsetBit).boxed()),
